@@ -2040,7 +2040,8 @@ def obligations(tier):
     obs.append(ob_pauli_single())
     for n in [1, 2] + ([3] if T else []):
         obs.append(ob_pauli_strings(n))
-    for ix in [(1, 3), (2, 2), (0, 1)] + ([(1, 2, 3)] if T else []):
+    # every two-qubit string (a real first factor followed by Y included), three-qubit strings: a few / all
+    for ix in list(itertools.product(range(4), repeat=2)) + (list(itertools.product(range(4), repeat=3)) if T else [(1, 2, 3), (0, 3, 2), (2, 0, 1)]):
         obs.append(ob_pauli_sparse_string(ix))
     for d in dims:
         obs.append(ob_weyl(d, field[d]))
